@@ -4,7 +4,7 @@ import z3
 from . import ty as T
 from .core import *  # noqa
 from .core import V, Exc, Cell, Event, Obligation, DottedName, BoundMethod, Closure, Sentinel
-from .interp import Run, Frame, Iter, zsimp, is_true, is_false, NUMERIC, nth, has_quant
+from .interp import Run, Frame, Iter, zsimp, is_true, is_false, NUMERIC, nth, has_quant, cheap_truth
 
 
 def kindp(*kinds):
@@ -83,6 +83,17 @@ class Evaluator(Run):
             if r is not None:
                 return r
             return const(BoundMethod(base, attr))
+        if base.t.kind == "lref":
+            pg = self.ctx.property_def(base.t.rec.name, attr, "getter")
+            if pg is not None and not self.pure:
+                return self.inline_call(Closure(pg, Frame({}, None)), [base], {}, node)
+            if attr not in base.t.rec.fields:
+                return const(BoundMethod(base, attr))
+            return self.getattr(self.lref_value(base, self.old_heap), attr, node)
+        if base.t.kind == "rec" and getattr(base.t, "objlike", False) and attr not in base.t.fields:
+            pg = self.ctx.property_def(base.t.name, attr, "getter")
+            if pg is not None:
+                return self.inline_call(Closure(pg, Frame({}, None)), [base], {}, node)
         if base.t.kind == "rec" and attr in base.t.fields:
             if "has_" + attr in base.t.fields:
                 self.fail_if(z3.Not(base.t.get(base.z, "has_" + attr)), "AttributeError", self.lab(node, "attr." + attr))
@@ -303,6 +314,18 @@ class Evaluator(Run):
     def ev_IfExp(self, node, frame):
         c = self.ev(node.test, frame)
         if self.pure:
+            tz = self.truthy(c)
+            ct = cheap_truth(tz)
+            if ct is None and isinstance(node.test, ast.Compare) and isinstance(node.test.ops[0], (ast.Is, ast.IsNot)):
+                # `x if y is not None else z` over a reference the path has already resolved: only one branch is meaningful
+                if not self.feasible(z3.Not(tz)):
+                    ct = True
+                elif not self.feasible(tz):
+                    ct = False
+            if ct is True:
+                return self.ev(node.body, frame)
+            if ct is False:
+                return self.ev(node.orelse, frame)
             a = self.ev(node.body, frame)
             b = self.ev(node.orelse, frame)
             if a.t != b.t:
@@ -553,6 +576,12 @@ class Evaluator(Run):
 
             return models.call_method(self, base, "__getitem__", [self.ev(sl, frame)], {}, node)
         idx = self.project(self.ev(sl, frame), kindp("int", "bool"), lab)
+        if k == "list" and not self.pure and getattr(self.cell(base).ty.elem, "objlike", False):
+            c = self.content(base)
+            n = z3.Length(c.z)
+            i = self.to_int(idx)
+            self.fail_if(z3.Or(i < -n, i >= n), "IndexError", lab)
+            return V(T.ListItemRef(self.cell(base).ty.elem), (base, zsimp(self.norm_index(i, n))))
         return self.seq_index(base, idx, lab, heap)
 
     def unbox_item(self, base, m, kz):
@@ -623,6 +652,8 @@ class Evaluator(Run):
                 return Iter(z3.IntVal(0), None, concrete=[])
             if s.t.kind == "bytes":
                 return Iter(z3.Length(s.z), lambda i, s=s: V(T.Int, nth(s.z, i)), src_locs=[v.z] if k == "list" else [])
+            if k == "list" and not self.pure and getattr(s.t.elem, "objlike", False):
+                return Iter(z3.Length(s.z), lambda i, v=v, s=s: V(T.ListItemRef(s.t.elem), (v, i)), src_locs=[v.z], seq=s)
             return Iter(z3.Length(s.z), lambda i, s=s: V(s.t.elem, nth(s.z, i)), src_locs=[v.z] if k == "list" else [], seq=s)
         if k == "str":
             return Iter(z3.Length(v.z), lambda i, s=v: V(T.Str, z3.SubString(s.z, i, 1)))
@@ -699,7 +730,7 @@ class Evaluator(Run):
             recv = o.recv
             if recv.is_const and isinstance(recv.z, DottedName):
                 return self.ctx.call_named(self, recv.z.name + "." + o.name, args, kwargs, node, frame)
-            if recv.t.kind == "obj":
+            if recv.t.kind == "obj" or recv.t.kind == "lref" or (recv.t.kind == "rec" and getattr(recv.t, "objlike", False)):
                 return self.ctx.call_method(self, recv, o.name, args, kwargs, node, frame)
             return models.call_method(self, recv, o.name, args, kwargs, node)
         if isinstance(o, type(lambda: 0)) or callable(o):
@@ -713,6 +744,7 @@ class Evaluator(Run):
         f2 = Frame({}, parent=clo.frame, fn=fn)
         self.bind_params(fn.args, args, kwargs, f2, clo.frame)
         self.inline_depth += 1
+        saved_frame = getattr(self, "cur_frame", None)
         try:
             if isinstance(fn, ast.Lambda):
                 return self.ev(fn.body, f2)
@@ -723,6 +755,7 @@ class Evaluator(Run):
             return mk_none()
         finally:
             self.inline_depth -= 1
+            self.cur_frame = saved_frame
 
     def bind_params(self, a, args, kwargs, f2, defframe):
         pos = list(a.posonlyargs) + list(a.args)
@@ -1078,6 +1111,30 @@ class Evaluator(Run):
             return
         if isinstance(target, ast.Attribute):
             base = self.ev(target.value, frame)
+            if base.t.kind == "lref":
+                ps = self.ctx.property_def(base.t.rec.name, target.attr, "setter")
+                if ps is not None:
+                    self.inline_call(Closure(ps, Frame({}, None)), [base, val], {}, target)
+                    return
+                rt = base.t.rec
+                if target.attr not in rt.fields:
+                    if target.attr in self.ctx.c.config.get("untracked_attrs", ()):
+                        return
+                    raise Unsupported("store of untracked attribute %r of %s" % (target.attr, rt.name))
+                cur = self.lref_value(base)
+                self.lref_store(base, rt.set(cur.z, target.attr, self.coerce(self.data(val), rt.fields[target.attr]).z))
+                return
+            if base.t.kind == "rec" and getattr(base.t, "objlike", False) and isinstance(target.value, ast.Name):
+                # an object not yet stored in a list, held in a local: the store rebinds the local (no other alias exists)
+                rt = base.t
+                if self.ctx.property_def(rt.name, target.attr, "setter") is not None:
+                    raise Unsupported("property store on an object that is not in a list slot yet")
+                if target.attr not in rt.fields:
+                    if target.attr in self.ctx.c.config.get("untracked_attrs", ()):
+                        return
+                    raise Unsupported("store of untracked attribute %r of %s" % (target.attr, rt.name))
+                self.set_name(target.value.id, V(rt, rt.set(base.z, target.attr, self.coerce(self.data(val), rt.fields[target.attr]).z)), frame)
+                return
             if base.t.kind != "obj":
                 raise Unsupported("attribute assignment on %s" % base.t)
             self.set_field(base, target.attr, val)
@@ -1119,7 +1176,9 @@ class Evaluator(Run):
             o.env[name] = val
             return
         lt = self.ctx.local_type(frame, name)
-        if lt is not None and not lt.heap and val.t != lt:
+        if val.t.kind == "lref" and lt is not None and lt == val.t.rec:
+            pass  # a slot reference to an object of the declared type
+        elif lt is not None and not lt.heap and val.t != lt:
             val = self.coerce(self.data(val) if val.t.heap else val, lt)
         frame.env[name] = val
 
@@ -1195,6 +1254,7 @@ class Evaluator(Run):
         if m is None:
             raise Unsupported("statement %s (line %s)" % (type(node).__name__, node.lineno))
         self.cur_stmt = node
+        self.cur_frame = frame
         return m(node, frame)
 
     def ex_abstract(self, node, frame, ab):
@@ -1210,6 +1270,14 @@ class Evaluator(Run):
             else:
                 frame.env[n] = UNDEFINED
         self.ctx.note_abstract(node, ab)
+        for hx in ab.get("havoc", ()):  # heap objects the abstracted statement may modify
+            hv = self.spec_eval_in_frame(hx, frame, {})
+            if hv.t.heap:
+                for loc in sorted(self.reachable(hv)):
+                    self.write_check(loc)
+                    self.havoc_loc(loc, "abs")
+        for en in ab.get("ensures", ()):  # ASSUMED facts about the abstracted statement (listed with its reason)
+            self.assume(self.truthy(self.spec_eval_in_frame(en, frame, {})))
         if ab.get("may_return") is not None:
             if self.choose([0, 1], self.lab(node, "abstract-return")) == 1:
                 raise ReturnEx(self.lift(ab["may_return"]) if ab["may_return"] != "None" else mk_none())
@@ -1606,10 +1674,18 @@ class Evaluator(Run):
         self.loop_pre = getattr(self, "loop_pre", {})
         self.loop_pre[key] = (self.snapshot(), dict(self.ghost))
         self.cur_loop_key = key
+        if spec.get("snapshot"):
+            if not hasattr(self, "named_heaps"):
+                self.named_heaps = {}
+            self.named_heaps[spec["snapshot"]] = self.loop_pre[key][0]  # at('<label>', e): value at this loop's entry
         # 1. invariant holds on entry
         for lbl, src in inv_items:
             g = self.truthy(self.spec_eval_in_frame(src, frame, extra0))
             ctx.add_obligation(self, "inv-entry", "%s.%s" % (key, lbl), g, clause=src, line=node.lineno)
+        target_before = None
+        if is_for and isinstance(node.target, ast.Name):
+            tb = frame.lookup(node.target.id)
+            target_before = tb if tb is not None and tb is not UNDEFINED else None
         # 2. havoc what the body can change
         names = assigned_names(node.body + (node.orelse if False else []))
         if is_for:
@@ -1709,6 +1785,13 @@ class Evaluator(Run):
         # fall-through exit: invariant and not guard
         for n in undefined_after:
             frame.env[n] = UNDEFINED
+        if is_for and spec.get("final_target") and isinstance(node.target, ast.Name) \
+                and node.target.id not in assigned_names(node.body):
+            # python leaves the loop variable bound to the last item (or untouched when there was none)
+            if self.decide(it.n > 0, key + ".nonempty"):
+                self.assign(node.target, it.at(it.n - 1), frame)
+            elif target_before is not None:
+                frame.env[node.target.id] = target_before
         self.ex_block(node.orelse, frame)
 
     def reachable(self, v):
